@@ -74,6 +74,16 @@ func (c *Ctx) requireChecked(rule, key string, fn *ssa.Function, exit ssa.Instru
 func algListIs(v ssa.Value, want ...string) (bool, string) {
 	elems, ok := sliceLitElems(v)
 	if !ok {
+		// a package-level list that is initialised once with a literal and never written again
+		if g, isG := globalLoad(strip(v)); isG {
+			if lit, fine, why := constantGlobalSlice(g); fine {
+				elems, ok = sliceLitElems(lit)
+			} else if why != "" {
+				return false, "package variable " + g.Name() + ": " + why
+			}
+		}
+	}
+	if !ok {
 		return false, "not a slice literal of constants"
 	}
 	var got []string
@@ -361,4 +371,73 @@ func (c *Ctx) requireStep(rule, key string, fn *ssa.Function, exit ssa.Instructi
 	}
 	c.OK(rule, key, st.call.Pos(), "%s: exit %s reachable only over the success edge of %s (%s)%s", what, c.P.Pos(exit.Pos()), calleeName(st.call), c.P.Pos(st.call.Pos()), via)
 	return true
+}
+
+// constantGlobalSlice: the package variable holds a slice that its package initialiser stores once
+// (a literal) and that nothing in the program writes again: no other store to the variable, no
+// element store, append or sort through a load of it. Returns the literal stored.
+func constantGlobalSlice(g *ssa.Global) (lit ssa.Value, ok bool, why string) {
+	if theCtx == nil {
+		return nil, false, ""
+	}
+	var stores []*ssa.Store
+	bad := ""
+	fns := theCtx.allFirstPartyFuncs()
+	if g.Pkg != nil {
+		if init := g.Pkg.Func("init"); init != nil {
+			fns = append(fns, init)
+		}
+	}
+	seen := map[*ssa.Function]bool{}
+	for _, f := range fns {
+		if seen[f] {
+			continue
+		}
+		seen[f] = true
+		eachInstr(f, func(in ssa.Instruction) {
+			switch x := in.(type) {
+			case *ssa.Store:
+				if x.Addr == ssa.Value(g) {
+					stores = append(stores, x)
+					if f.Name() != "init" {
+						bad = "assigned in " + shortFn(f)
+					}
+				}
+			case *ssa.UnOp:
+				if x.X != ssa.Value(g) {
+					return
+				}
+				for _, r := range *x.Referrers() {
+					switch u := r.(type) {
+					case *ssa.IndexAddr:
+						for _, r2 := range *u.Referrers() {
+							if _, isSt := r2.(*ssa.Store); isSt {
+								bad = "an element is written in " + shortFn(f)
+							}
+						}
+					case *ssa.Slice:
+						bad = "resliced in " + shortFn(f)
+					case *ssa.Call:
+						if bi, isB := u.Call.Value.(*ssa.Builtin); isB && (bi.Name() == "append" || bi.Name() == "copy" || bi.Name() == "clear") && len(u.Call.Args) > 0 && u.Call.Args[0] == ssa.Value(x) {
+							bad = bi.Name() + " on it in " + shortFn(f)
+						}
+						if n := calleeName(u); strings.HasPrefix(n, "sort.") || strings.HasPrefix(n, "slices.Sort") || strings.HasPrefix(n, "slices.Reverse") {
+							bad = n + " on it in " + shortFn(f)
+						}
+					case *ssa.Store:
+						if u.Val == ssa.Value(x) {
+							bad = "copied into another variable in " + shortFn(f)
+						}
+					}
+				}
+			}
+		})
+	}
+	if bad != "" {
+		return nil, false, bad
+	}
+	if len(stores) != 1 {
+		return nil, false, fmt.Sprintf("%d initialising stores", len(stores))
+	}
+	return stores[0].Val, true, ""
 }
